@@ -401,7 +401,7 @@ func runC06(r *mc.Run) {
 			}
 			now := verify.TimeSet{PckCertChain: ts[0], TcbInfo: ts[1], QeIdentity: ts[2], PckCrl: ts[3], RootCaCrl: ts[4]}
 			o := &verify.Options{GetCollateral: a.level >= 1, CheckRevocations: a.level >= 2, Getter: s.getter.Clone(), Now: &now, TrustedRoots: s.roots}
-			err := world.SafeVerifyRaw(s.raw, o)
+			err := verifyRawBoth(r, id, s.raw, o)
 			want, why := s.inDate(a.level, ts)
 			out := verdict(err)
 			detail := map[string]any{"now": fmt.Sprint(now), "reference": why}
@@ -619,7 +619,7 @@ func c06UnsignedDates(r *mc.Run) {
 		g.Responses[d.url] = world.Response{Header: d.hdr, Body: []byte(body)}
 		o := w.Options(world.L1)
 		o.Getter = g
-		err := world.SafeVerifyRaw(w.Raw(), o)
+		err := verifyRawBoth(r, id, w.Raw(), o)
 		out := verdict(err)
 		switch {
 		case world.IsPanic(err):
